@@ -1,5 +1,6 @@
 import Verif.Gen.Errors
 import Verif.Lemmas.Await
+import Verif.Lemmas.ClientApi
 
 /-! # C07 — an error response always surfaces as a classified exception carrying its code
 
@@ -94,6 +95,55 @@ theorem c07_error_class_total (cfg : Cfg α) (ev : List (Nat × In α)) (r : Boo
     refine ⟨?_, pre, a, post, code, he, hn, h1⟩
     rw [h2]
     exact c07_total_classification c
+
+/-! ## The high-level client (`MCPClient`, `Model/ClientApi.lean`) -/
+open Verif.Model.ClientApi Verif.Lemmas.ClientApi in
+/-- A call of the high-level client whose own request raises a server error raises the class the
+(regenerated) classifier gives the code, with the code and message of the FIRST message bearing the
+request's own id among the messages nothing earlier on the connection consumed — an error addressed
+to the `initialize` request or to an earlier call is never this call's error. -/
+theorem c07_client_error_is_own (okInit : α → Bool) (b : Bool) (start used : Nat)
+    (ev : List (Nat × In α)) (calls : List (Call α)) :
+    ∀ x ∈ (clientSeq isRetryableError okInit b start used ev calls).zip calls, ∀ s u o r c msg,
+      x.1.req = some (s, u, o) → o.outcome = .raised r c msg →
+      (r = false ↔ c ∈ documentedPermanent)
+      ∧ ∃ pre a post code, ev.drop u = pre ++ (a, In.err x.2.req.reqId code msg) :: post
+          ∧ NoMatch x.2.req pre ∧ c = code.getD (-32603) := by
+  induction calls generalizing b start used with
+  | nil => simp [clientSeq]
+  | cons cl rest ih =>
+    intro x hx s u o r c msg hreq hp
+    have key : ∀ (s' u' : Nat), o = run isRetryableError cl.req (shift s' (ev.drop u')) →
+        (r = false ↔ c ∈ documentedPermanent)
+        ∧ ∃ pre a post code, ev.drop u' = pre ++ (a, In.err cl.req.reqId code msg) :: post
+          ∧ NoMatch cl.req pre ∧ c = code.getD (-32603) := by
+      intro s' u' ho
+      rw [ho] at hp
+      obtain ⟨pre, a, post, code, he, hn, h1, h2⟩ := run_raised_sound isRetryableError cl.req _ r c msg hp
+      obtain ⟨pre', a', post', he', hn', _⟩ := shift_decomp _ _ _ _ _ _ cl.req he hn
+      refine ⟨?_, pre', a', post', code, he', hn', h1⟩
+      rw [h2]; exact c07_total_classification c
+    cases b with
+    | true =>
+      simp only [clientSeq, List.zip_cons_cons, List.mem_cons] at hx
+      rcases hx with rfl | hx
+      · simp only [Option.some.injEq, Prod.mk.injEq] at hreq
+        obtain ⟨rfl, rfl, rfl⟩ := hreq
+        exact key _ _ rfl
+      · exact ih _ _ _ x hx s u o r c msg hreq hp
+    | false =>
+      simp only [clientSeq] at hx
+      split at hx
+      · simp only [List.zip_cons_cons, List.mem_cons] at hx
+        rcases hx with rfl | hx
+        · simp only [Option.some.injEq, Prod.mk.injEq] at hreq
+          obtain ⟨rfl, rfl, rfl⟩ := hreq
+          exact key _ _ rfl
+        · exact ih _ _ _ x hx s u o r c msg hreq hp
+      · simp only [List.zip_cons_cons, List.mem_cons] at hx
+        rcases hx with rfl | hx
+        · simp at hreq
+        · exact ih _ _ _ x hx s u o r c msg hreq hp
 
 /-- the boolean convenience calls (`send_ping`, `send_resources_subscribe`,
 `send_resources_unsubscribe`): `True` on a result, `False` on anything else -/
